@@ -500,7 +500,7 @@ def c08_extra(ctx):
     reqs = []
     for name, text in cases:
         for o in L.OPTSETS:
-            if name.startswith('rules') and ('s' in o) and int(name[5:]) > 1200:
+            if name.startswith('rules') and ('s' in o) and int(re.match(r'rules(\d+)', name).group(1)) > 1200:
                 continue
             reqs.append({'id': '%s_%s' % (name, o or 'd'), 'text': text, 'opts': o, 'compile': True, 'src': True, 'tree': True, 'name': name})
     real = T.run_pegx_parallel(reqs, timeout=120)
